@@ -373,9 +373,8 @@ func (n *FSNode) IsDir() bool {
 
 // Mode returns the optionally stored file permissions
 func (n *FSNode) Mode() (m os.FileMode) {
-	perms := n.format.GetMode() & 0xFFF
-	if perms != 0 {
-		m = files.UnixPermsToModePerms(perms)
+	if n.format.Mode != nil {
+		m = files.UnixPermsToModePerms(*n.format.Mode & 0xFFF)
 		switch n.Type() {
 		case pb.Data_Directory, pb.Data_HAMTShard:
 			m |= os.ModeDir
